@@ -7,8 +7,8 @@ BOUNDED, never counted as proved.  Bound: one schema (scalars, non-null, lists, 
 interface, a union, arguments with defaults and an input object); documents built from 24 selection
 atoms (aliases, arguments, @skip/@include with literal and variable conditions, inline fragments,
 fragment spreads incl. repeated and nested ones) taken 1, 2 and (seeded) 3 at a time under three
-parents; 6 data variants (conforming, nulls at nullable and non-null positions, wrong kinds,
-raising resolvers); quick: every 2nd request of the enumeration (seeded offset), thorough: all.
+parents; 7 data variants (conforming, nulls at nullable and non-null positions, wrong kinds,
+raising resolvers, mappings that are not dicts); quick: every 2nd request of the enumeration (seeded offset), thorough: all.
 Leaf serialisation uses the library's own coerce_output_value (that is C16's subject); variable
 coercion is not exercised beyond two Boolean variables.  Runs natively."""
 import itertools
@@ -96,6 +96,15 @@ def make_data(variant):
         root["obj"] = None
         root["u"] = {"__typename": "Nope"}
         root["pet"]["friend"] = {"__typename": "Cat", "nick": None}
+    elif variant == 6:
+        # mappings that are not dicts (the default resolvers accept any Mapping)
+        import types
+        import collections
+        root["pet"] = types.MappingProxyType(dog())
+        root["u"] = collections.ChainMap({}, cat())
+        root["obj"]["pet"] = types.MappingProxyType(cat())
+        root["objnn"]["u"] = collections.ChainMap(dog())
+        root["obj"]["o"] = types.MappingProxyType(obj(2))
     return root
 
 
@@ -114,6 +123,7 @@ def ref_execute(schema, doc, root, variables):
                               is_abstract_type, is_input_object_type)
     from graphql.utilities import type_from_ast
     from graphql.pyutils import Undefined
+    from collections.abc import Mapping
     frags = {d.name.value: d for d in doc.definitions if isinstance(d, FragmentDefinitionNode)}
     op = next(d for d in doc.definitions if isinstance(d, OperationDefinitionNode))
     errors = []
@@ -220,7 +230,7 @@ def ref_execute(schema, doc, root, variables):
     def execute_field(obj_type, value, fdef, nodes, path):
         try:
             try:
-                v = value.get(nodes[0].name.value) if isinstance(value, dict) else getattr(
+                v = value.get(nodes[0].name.value) if isinstance(value, Mapping) else getattr(
                     value, nodes[0].name.value, None)
                 if callable(v):
                     v = v(None, **arguments(fdef, nodes[0]))
@@ -267,13 +277,11 @@ def ref_execute(schema, doc, root, variables):
                 raise FieldError(path)
             return r
         if is_abstract_type(t):
-            tn = v.get("__typename") if isinstance(v, dict) else None
+            tn = v.get("__typename") if isinstance(v, Mapping) else None
             rt = schema.get_type(tn) if isinstance(tn, str) else None
             if rt is None or not is_object_type(rt) or not schema.is_sub_type(t, rt):
                 raise FieldError(path)
             t = rt
-        elif not isinstance(v, dict):
-            pass    # default is_type_of: none defined -> any value is accepted
         return execute_set(t, v, [n.selection_set for n in nodes if n.selection_set], path)
 
     def top():
@@ -296,7 +304,7 @@ def ordered(x):
     return x
 
 
-def search(seed=0, thorough=False, budget_s=420, variants=range(6)):
+def search(seed=0, thorough=False, budget_s=420, variants=range(7)):
     import time
     from graphql import build_schema, parse, validate, execute_sync
     t0 = time.time()
